@@ -161,6 +161,9 @@ class Repo:
                         self._load(os.path.join(dp, fn))
         if not self.modules:
             raise AnalysisError('no python sources found under ' + self.root)
+        # single-use private helpers are put back into their only caller ("extract method" undone; exact, see gxstat/absorb.py)
+        from .absorb import absorb_single_use_procedures
+        self.absorbed: List[str] = absorb_single_use_procedures(self)
 
     # ------------------------------------------------------------------ loading
     def _load(self, path: str) -> None:
@@ -289,7 +292,8 @@ class Repo:
 
     def stats(self) -> dict:
         nf = sum(1 for _ in self.all_functions())
-        return {'files': len(self.modules), 'classes': sum(len(v) for v in self.classes.values()), 'functions': nf}
+        return {'files': len(self.modules), 'classes': sum(len(v) for v in self.classes.values()), 'functions': nf,
+                'single_use_helpers_put_back_into_their_caller': list(getattr(self, 'absorbed', []))}
 
 
 # ---------------------------------------------------------------------- generic AST helpers
